@@ -31,6 +31,8 @@ import copy
 import os
 import pickle
 
+import numpy
+
 from symx.core import AND, NOT, ITE, is_sym
 from symx.engine import harness
 from symx import shims
@@ -40,7 +42,8 @@ import armi.reactor.grids.cartesian as cartmod
 import armi.reactor.grids.hexagonal as hexmod
 import armi.reactor.grids.structuredGrid as sgmod
 import armi.reactor.parameters.parameterCollections as pcmod
-from armi.reactor import assemblies, blocks, components, grids
+from armi.reactor import assemblies, blocks, components, composites, grids
+from armi.reactor.flags import Flags
 from armi.reactor.parameters import NoDefault, ParameterError
 from armi.reactor.reactorParameters import makeParametersReadOnly
 
@@ -102,6 +105,19 @@ KNOWN_DEFECT_params_from_copies_serial_number = False  # repaired in /repo (fix:
 #                           del b.p["power"] is accepted and b.p.power reads the default afterwards (__delitem__
 #                           goes through delattr, which the read-only switch of __setattr__ does not see).
 KNOWN_DEFECT_readonly_history_and_delete = False  # repaired in /repo (fix: 5a2ed94)
+#  empty_grid_not_backed_up: g = HexGrid.fromPitch(1.0, numRings=0)  (a grid whose locations are made on demand: none yet)
+#                           b.spatialGrid = g
+#                           with b.retainState(): g.changePitch(2.0)
+#                           -> pitch 2.0 afterwards (want 1.0);  with `g[1, 0, 0]` inside the scope as well (first
+#                           location made inside) the exit raises TypeError: cannot unpack non-iterable NoneType.
+#                           Composite.backUp / restoreBackup guard the grid with `if self.spatialGrid:` and the truth
+#                           value of a grid is len(self._locations): a grid without locations counts as "no grid".
+KNOWN_DEFECT_empty_grid_not_backed_up = False  # repaired in /repo (fix: 6561d6b)
+#  readonly_copy_params_from: makeParametersReadOnly(r); b.copyParamsFrom(otherBlock)
+#                           -> accepted: b.p is REPLACED by a fresh, writeable collection carrying the other block's
+#                           values (copyParamsFrom starts with `self.p = other.p.__class__()`), so every value of b
+#                           changes and b is writeable again inside a read-only reactor.
+KNOWN_DEFECT_readonly_copy_params_from = False  # repaired in /repo (fix: ab68b2a)
 
 
 # ---------------------------------------------------------------------------
@@ -455,6 +471,40 @@ class BlockGrid(Slot):
         return (x, y)
 
 
+class FreshHexGrid(Slot):
+    """pitch of a hex grid that holds NO location object yet when the scope is opened (locations are made on demand by
+    ``grid[i, j, k]``; ``fromPitch(numRings=0)`` makes none up front) - `touch`: the first location is made inside the
+    scope, after the pitch change.  Not a parameter: always restored."""
+    grid = True
+    exact = False
+    scale = 500.0
+
+    def __init__(self, level, touch):
+        self.level, self.touch = level, touch
+        self.name = "%s.spatialGrid pitch (no locations yet%s)" % (level, "; first one made inside" if touch else "")
+        self.tag = "fresh_%s_" % level
+
+    def init(self, ctx, v):
+        o = getattr(v, self.level)
+        g = grids.HexGrid.fromPitch(ctx.real(self.tag + "pitch0", 0.1, 100.0), numRings=0)
+        assert len(list(g.items())) == 0, "harness precondition: the grid holds no location yet"
+        g.armiObject = o
+        o.spatialGrid = g
+
+    def draw(self, ctx, tag):
+        return ctx.real(self.tag + "pitch" + tag, 0.1, 100.0)
+
+    def apply(self, v, x):
+        g = getattr(v, self.level).spatialGrid
+        g.changePitch(x)
+        if self.touch:
+            g[1, 0, 0]
+
+    def read(self, v):
+        x, y, _z = getattr(v, self.level).spatialGrid.getCoordinates((1, 2, 0))
+        return (x, y)
+
+
 class CartGrid(Slot):
     """Cartesian grid owned by a block: its whole geometric state (cell widths AND the offset of the origin, which
     scales with the widths) changed through changePitch (not a parameter: always restored).  `offset`: 'centred'
@@ -676,6 +726,7 @@ class DeletedEntry(Scalar):
 
 SLOTS = {s.name: s for s in (ChargeTime(), Power(), MgFlux(), BuByPin(), LinPow(), MgToNone(), HmBOL(), CladNdens(),
                              DuctTemp(), DuctNdens(), DuctTempChoice(), DuctNdensKeepable(), FuelOd(), BlockGrid(),
+                             FreshHexGrid("b", False), FreshHexGrid("b1", True),
                              Axial(), CartGrid("b", "half-cell"), CartGrid("b1", "explicit"), CartGrid("b", "centred"),
                              CartGrid("b1", "half-cell"), Cache(), Cache("b", False), Cache("a", False), Cache("clad", False),
                              Scalar("b", "flux", 0.0, 1e16), Scalar("clad", "percentBu", 0.0, 100.0),
@@ -764,6 +815,10 @@ SINGLE = [
     # caches of the materials (a scope on a component covers that component's own material as well)
     ("clad.material cached", "fuel.material cached", "b.power"),
 ]
+if not (KNOWN_DEFECT_empty_grid_not_backed_up and _HIDE):
+    # a grid that holds no location object yet when the scope is opened
+    SINGLE.append(("b.spatialGrid pitch (no locations yet)", "b1.spatialGrid pitch (no locations yet; first one made inside)",
+                   "b.power"))
 
 
 SINGLE_THOROUGH = [
@@ -1370,6 +1425,174 @@ def retain_state_kept_array_changes_length(ctx):
         ctx.check_eq("kept array entry %d" % i, got[i], w)
 
 
+# a kept array keeps EVERY in-scope change, however small: "the parameters named to be kept ... retain their new values"
+# is an exact statement.  The entries of a float array are concrete representatives (numpy float arrays do not carry
+# solver terms): magnitudes from trace number densities to fluxes, relative changes from one part in 1e12 to 50 %.
+TINY_MAGNITUDES = [1e-30, 1e-9, 1.0, 1e6]
+TINY_CHANGES = [1e-12, 1e-6, 0.5]
+TINY_PATTERNS = ["first entry", "last entry", "every entry", "no entry"]
+
+
+@harness("C16", bounds="assembly of 2 blocks; ONE float-array parameter per instance (block mgFlux, component "
+                       "detailedNDens, assembly detailedNDens), 3 entries of magnitude (symbolic choice) 1e-30 / 1e-9 / 1 / "
+                       "1e6 (times 1, 2.5, 7; one variant with a NaN entry that does not change); inside a scope on the "
+                       "assembly or on the block (symbolic) it is re-assigned with the first / the last / every / no "
+                       "entry changed by a relative 1e-12 / 1e-6 / 0.5 (symbolic choices); named in the keep-set or not "
+                       "(symbolic); a second array parameter of the same object, never kept, gets the same change",
+         stubs=STUBS,
+         instances={"quick": [dict(level="b", pname="mgFlux", other="adjMgFlux"),
+                              dict(level="fuel", pname="detailedNDens", other="pinPercentBu")],
+                    "thorough": [dict(level="a", pname="detailedNDens", other=None)]})
+def kept_array_keeps_every_change_however_small(ctx, level, pname, other):
+    v = View(mk_assembly(2))
+    o = getattr(v, level)
+    mag = ctx.choice("magnitude of the entries", TINY_MAGNITUDES)
+    rel = ctx.choice("relative change", TINY_CHANGES)
+    pattern = ctx.choice("changed", TINY_PATTERNS)
+    nan = ctx.bool("the middle entry is NaN (before and after)")
+    keep = ctx.bool("named in the keep-set")
+    onBlock = ctx.bool("scope on the block (else on the assembly)")
+    if level == "a":
+        ctx.assume(NOT(onBlock))
+    keep, nan = bool(keep), bool(nan)
+    old = mag * numpy.array([1.0, 2.5, 7.0])
+    if nan:
+        old[1] = numpy.nan
+    factor = numpy.ones(3)
+    if pattern == "every entry":
+        factor[:] = 1.0 + rel
+    elif pattern != "no entry":
+        factor[0 if pattern == "first entry" else 2] = 1.0 + rel
+    new = old * factor
+    changed = pattern != "no entry"
+    assert (not numpy.array_equal(new, old, equal_nan=True)) == changed, "harness precondition: the change is representable"
+    o.p[pname] = old.copy()
+    if other:
+        o.p[other] = old.copy()
+    with (v.b if onBlock else v.a).retainState([o.p.paramDefs[pname]] if keep else []):
+        o.p[pname] = new.copy()
+        if other:
+            o.p[other] = new.copy()
+        inside = numpy.array(o.p[pname], copy=True)
+    want = inside if keep else old
+    if ctx.canary and keep and mag == TINY_MAGNITUDES[1] and rel == TINY_CHANGES[1] and pattern == "last entry" and not nan:
+        want = old
+    got = o.p[pname]
+    ctx.check("inside the scope the parameter reads what was assigned", numpy.array_equal(inside, new, equal_nan=True))
+    ctx.check("%s.%s after the scope: %s, entry for entry and exactly" %
+              (level, pname, "the value it had when the scope ended (kept)" if keep else "its pre-scope value"),
+              isinstance(got, numpy.ndarray) and got.shape == want.shape and numpy.array_equal(got, want, equal_nan=True))
+    if other:
+        ctx.check("%s.%s (not kept) is back at its pre-scope value, exactly" % (level, other),
+                  numpy.array_equal(numpy.asarray(o.p[other]), old, equal_nan=True))
+
+
+# ---------------------------------------------------------------------------
+# (1e) what a scope does must not depend on which scopes the PROCESS has seen before
+#
+# State kept on classes / modules survives from one path to the next (all paths of a worker run in one process), so a
+# dependence on "which type of object left a scope first in this process" would only be visible on the very first path.
+# `fresh_process_state()` puts the class-level state of the parameter-collection types back to what it was when this
+# file was imported (before any scope was opened in the process): attributes bound later are removed, attributes re-bound
+# since are bound to their import-time value again.  On the unchanged tree this is a no-op (nothing is bound on these
+# classes after import).
+
+
+def _collection_types():
+    out, todo = [], [pcmod.ParameterCollection]
+    while todo:
+        c = todo.pop()
+        out.append(c)
+        todo.extend(c.__subclasses__())
+    return out
+
+
+_IMPORT_TIME_CLASS_STATE = {c: dict(vars(c)) for c in _collection_types()}
+
+
+def fresh_process_state():
+    for c in _collection_types():
+        then = _IMPORT_TIME_CLASS_STATE.setdefault(c, dict(vars(c)))
+        for name, val in list(vars(c).items()):
+            if name not in then:
+                delattr(c, name)
+            elif val is not then[name]:
+                setattr(c, name, then[name])
+
+
+STUBS_FRESH = STUBS + ["class-level state of the ParameterCollection types (attributes bound or re-bound on the classes "
+                       "after this file was imported, e.g. lazily filled caches) is reset to its import-time state at the "
+                       "start of every path, so that every path sees a process in which no scope has been left yet"]
+
+FIRST_OBJECTS = ["nothing", "spent fuel pool", "ex-core structure", "free-standing plain Composite",
+                 "free-standing plain Component", "reactor", "core", "assembly", "block", "fuel (Circle)", "duct (Hexagon)",
+                 "stored assembly"]
+# (label, object name, parameter, lo, hi): one parameter per collection type of the tree
+HISTORY_QUANTITIES = [("core.keff", "core", "keff", 0.0, 3.0),
+                      ("assembly.chargeTime", "a", "chargeTime", -10.0, 1e4),
+                      ("block.power", "b", "power", 0.0, 1e9),
+                      ("fuel.temperatureInC (defined for every component)", "fuel", "temperatureInC", 300.0, 700.0),
+                      ("fuel.od (defined for circles)", "fuel", "od", 0.5, 0.75),
+                      ("duct.op (defined for hexagons)", "duct", "op", 15.5, 15.9),
+                      ("stored assembly.chargeTime (in the spent fuel pool)", "stored", "chargeTime", -10.0, 1e4)]
+KEEP_CHOICES = ["nothing", "everything"] + [q[0] for q in HISTORY_QUANTITIES[:-1]]
+
+
+@harness("C16", bounds="HISTORY of two scopes in a fresh process; mini reactor with core (2 assemblies x 1 block x 4 "
+                       "components), spent fuel pool holding an assembly, an ex-core structure holding a block; FIRST scope "
+                       "(no keep-set): a symbolic choice of 12: nothing / ONE object whose flags are assigned inside - spent "
+                       "fuel pool, ex-core structure, a free-standing plain Composite, a free-standing plain Component "
+                       "(the BASE collection types), reactor, core, assembly, block, Circle, Hexagon, stored assembly -, the "
+                       "scope opened on the reactor or (symbolic) on that object itself; SECOND scope on the reactor: one "
+                       "parameter of every collection type (core, assembly, block, component, Circle, Hexagon) assigned a "
+                       "new value (old symbolic real, new = old + 1), keep-set a symbolic choice of nothing / everything / "
+                       "each single one", stubs=STUBS_FRESH, max_paths=3000)
+def keep_set_works_whatever_left_a_scope_first_in_the_process(ctx):
+    fresh_process_state()
+    r, core, sfp, stored, ex, blk = _mk_reactor_with_excore()
+    a = list(core)[0]
+    b = a[0]
+    objs = {"core": core, "a": a, "b": b, "fuel": b[0], "duct": b[2], "stored": stored}
+    first = ctx.choice("object assigned inside the first scope", FIRST_OBJECTS)
+    own = ctx.bool("first scope opened on that object itself (else on the reactor)")
+    keepWhat = ctx.choice("second scope keeps", KEEP_CHOICES)
+    old = {q[0]: ctx.real(q[0] + " before", q[3], q[4]) for q in HISTORY_QUANTITIES}
+    for label, on, pname, _lo, _hi in HISTORY_QUANTITIES:
+        objs[on].p[pname] = old[label]
+    target = {"nothing": None, "spent fuel pool": sfp, "ex-core structure": ex,
+              "free-standing plain Composite": composites.Composite("loose"),
+              "free-standing plain Component": components.Component("plain", "HT9", 25.0, 25.0),
+              "reactor": r, "core": core, "assembly": a, "block": b, "fuel (Circle)": b[0], "duct (Hexagon)": b[2],
+              "stored assembly": stored}[first]
+    loose = first.startswith("free-standing")
+    if target is None or loose:
+        ctx.assume(own if loose else NOT(own))
+    # -- first scope
+    if target is not None:
+        flags0 = target.p.flags
+        with (target if bool(own) else r).retainState():
+            target.p.flags = flags0 | Flags.FUEL | Flags.DEPLETABLE
+            assert target.p.flags != flags0
+        ctx.check("first scope: the flags of the %s are back" % first, target.p.flags == flags0)
+        for label, on, pname, _lo, _hi in HISTORY_QUANTITIES:
+            ctx.check_eq("first scope: %s untouched" % label, objs[on].p[pname], old[label])
+    # -- second scope
+    names = [q[0] for q in HISTORY_QUANTITIES]
+    keepLabels = [] if keepWhat == "nothing" else (names[:-1] if keepWhat == "everything" else [keepWhat])
+    keepSet = [objs[on].p.paramDefs[pname] for label, on, pname, _l, _h in HISTORY_QUANTITIES if label in keepLabels]
+    with r.retainState(keepSet):
+        for label, on, pname, _lo, _hi in HISTORY_QUANTITIES:
+            objs[on].p[pname] = old[label] + 1
+    for label, on, pname, _lo, _hi in HISTORY_QUANTITIES:
+        # a keep-set names DEFINITIONS: the assembly's chargeTime definition covers the stored assembly as well
+        isKept = any(objs[on].p.paramDefs[pname] is k for k in keepSet)
+        want = old[label] + 1 if isKept else old[label]
+        if ctx.canary and label == names[1] and first == "block" and keepWhat == names[1]:
+            want = want + ITE(old[label] == 77, 1, 0)
+        ctx.check_eq("second scope: %s %s" % (label, "keeps its new value (kept)" if isKept else
+                                              "is back at its pre-scope value"), objs[on].p[pname], want)
+
+
 # ---------------------------------------------------------------------------
 # (2) copies are equal and independent
 
@@ -1476,6 +1699,94 @@ def serial_numbers_fresh_and_unique(ctx):
             live = live + new
             ctx.check("copy %d: no two live objects share a serial number" % rnd,
                       AND(*[live[i] != live[j] for i in range(len(live)) for j in range(i + 1, len(live))]))
+    finally:
+        pcmod.GLOBAL_SERIAL_NUM = saved if not is_sym(saved) else 10 ** 6
+
+
+CREATED = ["deep copy of the block", "deep copy of the assembly", "deep copy of a component", "a new assembly",
+           "a bare collection copied", "nothing"]
+
+
+def _create(what, v):
+    """-> (object kept alive, its serial numbers)"""
+    if what == "deep copy of the block":
+        c = copy.deepcopy(v.b)
+        return c, serials(View(None, c))
+    if what == "deep copy of the assembly":
+        c = copy.deepcopy(v.a)
+        return c, serials(View(c))
+    if what == "deep copy of a component":
+        c = copy.deepcopy(v.clad)
+        return c, [c.p.serialNum]
+    if what == "a new assembly":
+        c = mk_assembly(1)
+        return c, serials(View(c))
+    if what == "a bare collection copied":
+        c = copy.deepcopy(v.b.p)
+        return c, [c.serialNum]
+    return None, []
+
+
+@harness("C16", bounds="GLOBAL_SERIAL_NUM = s0, symbolic Int in [-1, 2^62]; an assembly (2 blocks x 3 components) is "
+                       "built; then a retain-state scope (root: assembly / block / clad component; one scope or two "
+                       "nested ones; left normally or by an exception: all symbolic) in which the block power is "
+                       "assigned a symbolic real and an object is CREATED and kept alive beyond the scope (symbolic "
+                       "choice: deep copy of the block / the assembly / a component / a bare collection, a new assembly, "
+                       "nothing); after the scope another object is created (deep copy of the block / of a component, a "
+                       "new assembly); thorough tier: a second round repeats scope + creation", stubs=STUBS,
+         max_paths=3000, instances={"quick": [dict(rounds=1)], "thorough": [dict(rounds=2)]})
+def serial_numbers_unique_with_objects_created_inside_scopes(ctx, rounds):
+    s0 = ctx.int("s0", -1, 2 ** 62)
+    x = ctx.real("power assigned inside", 0.0, 1e9)
+    rootName = ctx.choice("scope root", ["a", "b", "clad"])
+    inside = ctx.choice("created inside the scope", CREATED)
+    after = ctx.choice("created after the scope", [CREATED[0], CREATED[2], CREATED[3]])
+    nested = ctx.bool("two nested scopes (the object is created in the inner one)")
+    byExc = ctx.bool("the scope is left by an exception")
+    nested, byExc = bool(nested), bool(byExc)
+    saved = pcmod.GLOBAL_SERIAL_NUM
+    try:
+        pcmod.GLOBAL_SERIAL_NUM = s0
+        v = View(mk_assembly(2))
+        power0 = v.b.p.power
+        live = serials(v)
+        alive = []          # the created objects stay referenced until the end of the path
+        for rnd in range(1, rounds + 1):
+            root = getattr(v, rootName)
+            try:
+                with root.retainState():
+                    if nested:
+                        with root.retainState():
+                            v.b.p.power = x
+                            obj, new1 = _create(inside, v)
+                    else:
+                        v.b.p.power = x
+                        obj, new1 = _create(inside, v)
+                    if byExc:
+                        raise _Leave()
+            except _Leave:
+                pass
+            alive.append(obj)
+            if rootName != "clad":
+                ctx.check_eq("round %d: the block power is back" % rnd, v.b.p.power, power0)
+            else:
+                v.b.p.power = power0
+            ctx.check("round %d: objects created inside the scope got numbers above every earlier live one" % rnd,
+                      AND(*[n > y for n in new1 for y in live]))
+            live = live + new1
+            obj2, new2 = _create(after, v)
+            alive.append(obj2)
+            if ctx.canary and rnd == rounds:
+                new2 = [n - ITE(s0 == 4242, len(new2) + 1, 0) for n in new2]
+            ctx.check("round %d: objects created after the scope got numbers above every live one, those created inside "
+                      "the scope included" % rnd, AND(*[n > y for n in new2 for y in live]))
+            live = live + new2
+            ctx.check("round %d: no two live objects share a serial number" % rnd,
+                      AND(*[live[i] != live[j] for i in range(len(live)) for j in range(i + 1, len(live))]))
+            ctx.check("round %d: the counter is not below any live serial number" % rnd,
+                      AND(*[n <= pcmod.GLOBAL_SERIAL_NUM for n in live]))
+            ctx.check("round %d: the objects of the assembly keep their serial numbers" % rnd,
+                      all(bool(p == q) for p, q in zip(serials(v), live)))
     finally:
         pcmod.GLOBAL_SERIAL_NUM = saved if not is_sym(saved) else 10 ** 6
 
@@ -1632,7 +1943,9 @@ def _some_parameter(o):
                        "a block (27 objects); after makeParametersReadOnly(reactor) an assignment of a symbolic real is "
                        "attempted on ONE object, a symbolic choice over ALL objects of the tree (enumerated by plain "
                        "iteration over children), through p.name = x, p[name] = x, p.update({name: x}), the history form "
-                       "p[(name, timestep)] = x, or the removal del p[name] (symbolic choice)", stubs=STUBS)
+                       "p[(name, timestep)] = x, the removal del p[name], or a transfer of all parameters from another "
+                       "object of the same class (o.copyParamsFrom(other) / o.updateParamsFrom(other), the other object a "
+                       "writeable copy with other values) (symbolic choice)", stubs=STUBS)
 def read_only_reactor_covers_every_object(ctx):
     r, core, sfp, stored, ex, blk = _mk_reactor_with_excore()
     objs = list(_walk(r))
@@ -1644,7 +1957,17 @@ def read_only_reactor_covers_every_object(ctx):
     if KNOWN_DEFECT_readonly_history_and_delete and _HIDE and how in ("p[(name, timestep)] = x", "del p[name]"):
         ctx.note("KNOWN_DEFECT_readonly_history_and_delete: %s skipped" % how)
         return
+    if KNOWN_DEFECT_readonly_copy_params_from and _HIDE and how == "o.copyParamsFrom(other)":
+        ctx.note("KNOWN_DEFECT_readonly_copy_params_from: %s skipped" % how)
+        return
     ctx.check("writable before", not any(o.p.readOnly for o in objs))
+    donor = None
+    if how in RO_TRANSFERS:
+        # another object of the same class (a detached, writeable copy made beforehand) that carries a different value
+        donor = copy.deepcopy(objs[int(k)])
+        dn = _some_parameter(donor)
+        donor.p[dn] = (x + 1) if dn != "serialNum" else donor.p.serialNum
+        donor.p.flags = donor.p.flags | Flags.FUEL | Flags.DEPLETABLE | Flags.B
     makeParametersReadOnly(r)
     for n, o in enumerate(objs):
         ctx.check("object %d of the tree is read-only: %s > %s" % (n, _where(o, core), type(o).__name__), o.p.readOnly)
@@ -1657,6 +1980,7 @@ def read_only_reactor_covers_every_object(ctx):
         return (read_param(o, name), name in o.p, o.p[(name, 3)] if hasHist else None, hasHist)
 
     before = state()
+    flags0 = o.p.flags
     refused = False
     try:
         if how == "p[name] = x":
@@ -1667,6 +1991,10 @@ def read_only_reactor_covers_every_object(ctx):
             o.p.update({name: x + 1})
         elif how == "p[(name, timestep)] = x":
             o.p[(name, 3)] = x + 1
+        elif how == "o.copyParamsFrom(other)":
+            o.copyParamsFrom(donor)
+        elif how == "o.updateParamsFrom(other)":
+            o.updateParamsFrom(donor)
         else:
             del o.p[name]
     except RuntimeError:
@@ -1675,12 +2003,15 @@ def read_only_reactor_covers_every_object(ctx):
         refused = AND(refused, NOT(AND(k == len(objs) - 3, x == 333)))
     what = "%s > %s .p.%s, %s" % (_where(o, core), type(o).__name__, name, how)
     ctx.check("assignment is refused: " + what, refused)
+    ctx.check("... the object is still read-only: " + what, o.p.readOnly)
+    ctx.check("... its flags did not change: " + what, o.p.flags == flags0)
     after = state()
     ctx.check("... and nothing the collection reports for it changed: " + what,
               all(_plain_eq(p, q) for p, q in zip(_flat(before), _flat(after))))
 
 
-RO_WAYS = ["p.name = x", "p[name] = x", "p.update({name: x})", "p[(name, timestep)] = x", "del p[name]"]
+RO_TRANSFERS = ["o.copyParamsFrom(other)", "o.updateParamsFrom(other)"]
+RO_WAYS = ["p.name = x", "p[name] = x", "p.update({name: x})", "p[(name, timestep)] = x", "del p[name]"] + RO_TRANSFERS
 
 
 def _flat(st):
